@@ -614,6 +614,15 @@ struct KnownFinding {
     what_fails: String,
 }
 
+/// A listed signature matches exactly, or as a prefix when it ends in '*' (one call site whose
+/// pre-state component varies).
+fn sig_matches(listed: &str, sig: &str) -> bool {
+    match listed.strip_suffix('*') {
+        Some(prefix) => sig.starts_with(prefix),
+        None => listed == sig,
+    }
+}
+
 fn load_known(id: &str) -> Vec<KnownFinding> {
     let p = format!("{}/known_findings.json", root());
     match std::fs::read_to_string(&p) {
@@ -833,7 +842,7 @@ pub fn run_main<S: Scenario>(tier: Tier) -> i32 {
     let _ = std::fs::create_dir_all(format!("{}/replays", root()));
     for (sig, v) in &by_sig {
         let count = merged.done.sig_counts.get(sig).cloned().unwrap_or(1);
-        if let Some(kf) = known.iter().find(|f| &f.signature == sig) {
+        if let Some(kf) = known.iter().find(|f| sig_matches(&f.signature, sig)) {
             println!("KNOWN-FINDING: property={} {} -- {} ({} runs ended here)", S::ID, sig, kf.what_fails, count);
             known_hit.insert(sig.clone(), count);
             continue;
@@ -966,7 +975,7 @@ pub fn replay_main<S: Scenario>(path: &str) -> i32 {
             println!("REPLAY reproduced signature={sig}");
             println!("  detail={}", iso.detail.replace('\n', "\\n"));
             let known = load_known(S::ID);
-            if let Some(kf) = known.iter().find(|f| f.signature == sig) {
+            if let Some(kf) = known.iter().find(|f| sig_matches(&f.signature, &sig)) {
                 println!("KNOWN-FINDING: property={} {} -- {}", S::ID, sig, kf.what_fails);
                 return 0;
             }
